@@ -88,6 +88,9 @@ class StoreLogTail(threading.Thread):
         self.cv = threading.Condition()
         self.swapouts = {}
         self.filenos = {}      # fileno -> set of urls stored there (rock: hash position; a second url = collision)
+        self.keys = {}         # url -> cache key (hex) as logged
+        self.released = set()  # file numbers released since the last start of the process
+        self.reused = set()    # urls whose latest swap-out went to a file number released earlier in this process lifetime
         self.running = True
         self.buf = b""
 
@@ -111,12 +114,23 @@ class StoreLogTail(threading.Thread):
                     url = f[-1].decode("latin-1")
                     self.swapouts[url] = self.swapouts.get(url, 0) + 1
                     self.filenos.setdefault(f[3].decode(), set()).add(url)
+                    self.keys[url] = f[4].decode()
+                    if f[3] in self.released:
+                        self.reused.add(url)
+                    else:
+                        self.reused.discard(url)
+                elif len(f) >= 5 and f[1] == b"RELEASE" and f[2] != b"-1":
+                    self.released.add(f[3])
             self.cv.notify_all()
 
     def run(self):
         while self.running:
             self.poll()
             time.sleep(0.01)
+
+    def restarted(self):
+        with self.cv:
+            self.released = set()
 
     def wait_swapouts(self, url, count, timeout):
         t0 = time.time()
@@ -277,7 +291,7 @@ class Scenario:
 
 
 def rock_image(path, slot_size):
-    """the non-empty cells of a rock db file: slot -> (key hex, entrySize, payloadSize, version, firstSlot, nextSlot)"""
+    """the non-empty cells of a rock db file: slot -> (key hex, entrySize, payloadSize, version, firstSlot, nextSlot, X-Ver of an inode)"""
     cells = {}
     try:
         with open(path, "rb") as f:
@@ -290,7 +304,8 @@ def rock_image(path, slot_size):
                 if d[:40] != b"\0" * 40:
                     k0, k1, es, ps, ver, first, nxt = struct.unpack("<QQQIIii", d[:40])
                     if first or nxt or ps:
-                        cells[i] = (d[:16].hex().upper(), es, ps, ver, first, nxt)
+                        m = re.search(rb"X-Ver: k\d+v(\d+)", d[40:40 + ps]) if first == i else None
+                        cells[i] = (d[:16].hex().upper(), es, ps, ver, first, nxt, int(m.group(1)) if m else 0)
                 i += 1
     except OSError:
         pass
@@ -372,6 +387,8 @@ class Harness:
             s.proc = None
             s._rm_shm()
         for name, s in self.squids.items():
+            self.tails[name].poll()
+            self.tails[name].restarted()
             self._start(s)
         return bad
 
@@ -401,7 +418,11 @@ class Harness:
             fin = list(ex.map(lambda r: r.final(), live))
         finals = dict(zip([id(r) for r in live], fin))
         out = []
-        img = None
+        images, swapfails = {}, {}
+        for st, sq in self.squids.items():
+            swapfails[st] = set(l.split()[6] for l in sq.access_log().splitlines() if "TCP_SWAPFAIL_MISS" in l and len(l.split()) > 6)
+        if "rock" in self.squids and any(r is not None and r.sc["store"] == "rock" for r in runs):
+            images["rock"] = rock_image(os.path.join(self.squids["rock"].dir, "cache", "rock"), ROCK_SLOT)
         for r in runs:
             if r is None:
                 out.append("bad-op")
@@ -420,6 +441,22 @@ class Harness:
                     coll = [k for k in range(r.sc["nkeys"]) if any(r.url(k) in urls and len(urls) > 1 for urls in tail.filenos.values())]
                 if coll:
                     o += " collided=" + ",".join(str(k) for k in coll)
+                with tail.cv:
+                    keyhex = {k: tail.keys.get(r.url(k)) for k in range(r.sc["nkeys"])}
+                parts = []
+                for k in range(r.sc["nkeys"]):
+                    cs = ["%d:%d:%d:%d:%d:%d" % (sl, c[4], c[5], c[2], c[1], c[6]) for sl, c in sorted(images["rock"].items()) if keyhex[k] and c[0] == keyhex[k]]
+                    parts.append("%d/%s" % (k, ",".join(cs) if cs else "-"))
+                o += " img=" + ";".join(parts)
+            if st in ("ufs", "aufs", "diskd") and " ; " in o:
+                tail = self.tails[st]
+                with tail.cv:
+                    reused = [k for k in range(r.sc["nkeys"]) if r.url(k) in tail.reused]
+                sf = [k for k in range(r.sc["nkeys"]) if r.url(k) in swapfails[st]]
+                if sf:
+                    o += " swapfail=" + ",".join(str(k) for k in sf)
+                if reused:
+                    o += " reused=" + ",".join(str(k) for k in reused)
             out.append(o)
         return out
 
